@@ -713,7 +713,9 @@ func (p *Parser) OrCondition() (interface{}, error) {
 	}
 
 	for p.match(OR) {
-		ac := SearchCondition{LHS: ret.(Predicate)}
+		// the left operand is whatever AndCondition returned: a predicate
+		// or an AND term (a = 1 AND b = 2 OR c = 3)
+		ac := SearchCondition{LHS: ret}
 		ac.RHS, err = p.OrCondition()
 		if err != nil {
 			return nil, err
@@ -733,7 +735,12 @@ func (p *Parser) AndCondition() (interface{}, error) {
 	}
 
 	for p.match(AND) {
-		ac := BooleanTerm{LHS: ret.(Predicate)}
+		pred, ok := ret.(Predicate)
+		if !ok {
+			// a bare value (WHERE a AND ...) is not a predicate
+			return nil, syntaxErr(p.Prev())
+		}
+		ac := BooleanTerm{LHS: pred}
 		ac.RHS, err = p.AndCondition()
 		if err != nil {
 			return nil, err
